@@ -35,6 +35,16 @@ def const_is(e, values):
 
 
 def run(ctx):
+    _run(ctx)
+    # "a repository's id is the git blob hash of the canonical encoding of its initial document": the id depends on the
+    # canonical encoder, so its rules (C18) are obligations of this property as well
+    from . import c18
+    saved = (ctx.explanation, ctx.not_decided, ctx.rule_text)
+    c18.run(ctx)
+    ctx.explanation, ctx.not_decided, ctx.rule_text = saved
+
+
+def _run(ctx):
     db = ctx.db
     ctx.explanation = (
         "Decides the validity clause structurally: every construction site of Doc/Delegates/Threshold/Version "
